@@ -175,11 +175,29 @@ FIRST_WAVE_MISSED.update({
     "C17_p": "in second recordings every data set received a message before the first flush: scripts early-restart-flush / -subdiv in the two-set configurations (one set idle at the first flush of the second recording)",
     "C19_p": "no request ever followed a dropped delivery: a module that could not take a message once (reported, 1-3 times, with or without traffic in between) then issues every kind of request",
 })
+FIRST_WAVE_MISSED.update({
+    "C01_r": "an ENGINE weakness: after the implementation had (wrongly) dropped the publisher, its side was quiet and the lock-step settle loop stopped, although the reference still held unread frames - what the reference went on to deliver was never compared. Rounds now go on until both are quiet",
+    "C03_r": "the quick tier ran every fault against a manager with the plain header only: the families in which the manager itself writes or reports (write-side deaths, slow clients, shared ids, mass departures) now also run with the timecode header",
+    "C04_r": "a struct and a message never shared a name: one name for a struct and for a message of another file of the closure, used as a field type (refused, or laid out alike by every output); C12 caught the missing refusal from the start",
+    "C05_r": "no connection ever saw more than a few dozen frames: one receiver now gets 70000 (thorough: 140000) frames with acknowledgements in between - every 16-bit boundary of the counter",
+    "C06_r": "the manager's table was never crowded with connections that hold no dynamic id: 98 static modules and / or 130 sockets that never say CONNECT, then three dynamic requests",
+    "C07_q": "the monitor always named CLIENT_CLOSED: every single-leaver scenario also runs with observers that listen through ALL_MESSAGE_TYPES only",
+    "C08_q": "subscription contexts were not among the changes between reads: contexts over mixed lists (one type paused, one not subscribed) added; C02 caught it from the start",
+    "C08_r": "only ONE subscription change happened between two reads: sequences of two and three changes (what unsubscribe / pause of ALL leaves behind meets a per-type change)",
+    "C10_q": "a type id was never looked up before its definition was registered again: the second definition set's messages are decoded once (header plus data) under the first set's registration, then re-registered",
+    "C10_r": "no field name began with an underscore: VUS / VUSS with _a, __b, _c_, d_ (first run of the strengthened check: harness error in an unguarded pre-step - now a finding)",
+    "C11_q": "with auto padding off every program was one file: a definition that needs padding placed in every file of two-import, chain and diamond closures (refused wherever it sits)",
+    "C11_r": "every parse used a fresh Parser: one Parser with auto padding off parses a broken file first, then definitions that need padding - its options are its own",
+    "C13_r": "no message of the cross-language program embedded another message: EMBED1-3 (direct, array, chain)",
+    "C15_q": "empty sections were omitted, never written as `name: null`: an extra program with explicit null sections in the root and in an imported file",
+    "C16_r": "both compilations happened on the same day: the second process believes it runs three days (and an odd number of seconds) later - the wall clock is an input",
+    "C17_r": "data sets were only ever added: in the two-set configuration dA is replaced by name and dB removed and added again before the recording",
+})
 NEUTRALIZED = {"C07_l": "the change made send_client_close() return early when called from inside another CLIENT_CLOSED delivery; the repair of the recursion defect (ac6efbb) announces departures one after the other, so the nested call no longer exists and the early return is never taken (the demonstration passes on the repaired tree)",
                "C17_b": "the change re-ordered the two Event operations of the hand-off; the second data-logger repair made the pair atomic under a lock, so the re-ordering no longer breaks the property (the demonstration passes on the repaired tree)"}
 rows = []
 titles = {}
-for d in sorted(glob.glob(os.path.join(HERE, "seeded", "*_[abcdefghijklmnop]"))):
+for d in sorted(glob.glob(os.path.join(HERE, "seeded", "*_[abcdefghijklmnopqrst]"))):
     sid = os.path.basename(d)
     ev = json.load(open(os.path.join(d, "eval.json"))) if os.path.exists(os.path.join(d, "eval.json")) else {}
     notes = open(os.path.join(d, "notes.md")).read() if os.path.exists(os.path.join(d, "notes.md")) else ""
